@@ -3,6 +3,7 @@ import datetime
 
 from ..framework import Check
 from .. import fieldlib as fl
+from .. import dates
 
 
 def small_values(fd):
@@ -18,7 +19,102 @@ def small_values(fd):
         out += [["float", fl.f2b(x)] for x in (0.0, 1.5, -2.25, 9.996, 12345.678, 0.05, -0.04, 99999.5)] + [["nan"]]
     else:
         out += [["date", [2024, 2, 29, 13, 5, 9, 0]], ["date", [1000, 12, 31, 0, 0, 0, 0]], ["nat"]]
+        if any("%Y" in f for f in fd["formats"]):
+            # years below 1000: strftime renders them without padding, so a %Y date has renderings of width 1..4 too
+            out += [["date", [999, 5, 2, 0, 0, 0, 0]], ["date", [33, 11, 30, 23, 59, 59, 0]]]
     return out
+
+
+# ---- renderings whose width varies from value to value, and writes repeated through one object
+# Date formats with textual directives (month / weekday names): the rendering's width depends on the value. They are outside
+# the model's format language (dates.tokens refuses them), so such cases are judged by the oracle alone.
+TEXTUAL_FORMATS = ["%d %B %Y", "%A %d/%m/%Y", "%b-%d-%Y %H:%M", "%B", "%a %d %b", "%Y %B %d", "%A"]
+BIN_SAFE_FLOATS = (0.0, 1.5, -2.25, 0.5, 100.0)   # exactly representable in every binary width
+
+
+def is_textual(fd):
+    """a date field whose format the model's format language does not cover (fail closed: whatever dates.tokens refuses)"""
+    if fd["k"] != "date":
+        return False
+    try:
+        for f in fd["formats"]:
+            dates.tokens(f)
+    except dates.Unsupported:
+        return True
+    return False
+
+
+def textual_field(rng, start):
+    fmt = rng.choice(TEXTUAL_FORMATS)
+    ws = [len(datetime.datetime(2024, m, d).strftime(fmt)) for m in range(1, 13) for d in range(1, 8)]
+    return {"k": "date", "size": rng.randint(min(ws), max(ws) + 3), "start": start, "formats": [fmt], "aslist": rng.random() < 0.3}
+
+
+def ref_fits(fd, v, mode):
+    """Does the value certainly fit the field? A reference decision from the property text alone (the rendering is not longer
+    than the field), used where the model is not asked: for the earlier writes of a history and for fields outside the
+    model's format language. Conservative: False when in doubt."""
+    if v is None or v[0] in ("nan", "nat"):
+        return True
+    k, n = fd["k"], fd["size"]
+    if k == "lit":
+        return v[0] == "str" and len(v[1]) <= n and (mode == "str" or all(ord(c) < 128 for c in v[1]))
+    if k == "int":
+        if v[0] != "int":
+            return False
+        if mode == "str":
+            return len(str(v[1])) <= n
+        return n in (2, 4, 8) and -2 ** (8 * n - 1) <= v[1] < 2 ** (8 * n - 1)
+    if k == "float":
+        if v[0] != "float":
+            return False
+        x = fl.b2f(v[1])
+        if mode == "bytes":
+            return n in (2, 4, 8) and x in BIN_SAFE_FLOATS
+        if x != x or abs(x) == float("inf"):
+            return False
+        if fd["fmt"] in "Ee":
+            return len("%.*E" % (fd["dd"], x)) + 1 <= n      # one column of margin for a carry into the exponent
+        return len("%.*f" % (fd["dd"], x)) <= n               # already fits with all its decimals
+    if v[0] != "date":
+        return False
+    text = datetime.datetime(*v[1]).strftime(fd["formats"][0])
+    return len(text) <= n and all(ord(c) < 128 for c in text)
+
+
+def width_value(rng, fd, mode):
+    """a value for the field, biased towards renderings of different widths (narrow and wide ones alike)"""
+    k, n = fd["k"], fd["size"]
+    if rng.random() < 0.1:
+        return rng.choice([None, ["nan"], ["nat"]])
+    if k == "lit":
+        if rng.random() < 0.5:
+            return ["str", "x" * rng.randint(0, n)]
+        return fl.gen_value(rng, fd, 0)
+    if k == "int":
+        w = rng.randint(1, max(1, min(n, 18)))
+        return ["int", rng.choice([10 ** w - 1, 10 ** (w - 1), 0, -(10 ** max(w - 2, 0)), rng.randint(-(10 ** (w - 1)) + 1, 10 ** w - 1)])]
+    if k == "float":
+        if mode == "bytes":
+            return ["float", fl.f2b(rng.choice(BIN_SAFE_FLOATS))]
+        return fl.gen_value(rng, fd, 0)
+    d = datetime.datetime(rng.choice([5, 33, 999, 1000, 1999, 2024, 9999, rng.randint(1, 9999)]), rng.randint(1, 12), rng.randint(1, 28),
+                          rng.randint(0, 23), rng.randint(0, 59), rng.randint(0, 59), rng.choice([0, 0, 5, 123456]))
+    return ["date", dates.dt_tuple(d)]
+
+
+def fit_value(rng, fd, mode):
+    """a value that certainly fits (ref_fits); a missing value when none is found"""
+    for _ in range(8):
+        v = width_value(rng, fd, mode)
+        if ref_fits(fd, v, mode):
+            return v
+    return None
+
+
+def gen_target(rng, end):
+    ln = rng.randint(0, end + 3)
+    return rng.choice(["#" * ln, ("ab\tc 0123456789xyz~" * (1 + ln // 18))[:ln], ("x\n \t\n\n\r \n" * (1 + ln // 9))[:ln]])
 
 
 class CHECK(Check):
@@ -33,7 +129,12 @@ class CHECK(Check):
             "documented defaults. Values that do not fit (decided by the model's fits) are counted and skipped. "
             "non-trivial = the target line is non-empty and differs from blanks, or the layout has >= 2 fields; "
             "distinct = case hash"
-            " Later additions: targets ending in line breaks/blanks/tabs; 30% of the multi-field layouts overlap.")
+            " Later additions: targets ending in line breaks/blanks/tabs; 30% of the multi-field layouts overlap; "
+            "renderings whose width varies from value to value: dates with years below 1000 (inside the model) and date formats "
+            "with month / weekday names (outside the model's format language: judged by the oracle alone, fitting decided by "
+            "the reference); (a') one Field object written 2-4 times (values of other widths, other targets, str and bytes) and "
+            "one Line written for 1-3 earlier records before the measured one: every write is judged by the oracle, the model "
+            "gives every record of a Line and the measured write of a Field.")
     exhaustive = True
 
     def entry_of(self, case):
@@ -69,10 +170,57 @@ class CHECK(Check):
                                         if mode == "bytes" and kind in ("int", "float") and tier == "quick" and ln % 2:
                                             continue
                                         yield {"t": "field", "fd": fd, "v": v, "target": content, "mode": mode}
+        # (a') one Field object written several times (the fields of a Line / a register class are shared by every record
+        # written through them): 1-3 earlier writes of fitting values whose renderings have other widths, on other targets,
+        # str and bytes, then the measured write. Every write is judged; the model gives the measured one.
+        for _ in range(2500 if tier == "quick" else 40000):
+            start = rng.randint(0, 5)
+            r = rng.random()
+            if r < 0.3:
+                fd = textual_field(rng, start)
+            elif r < 0.65:
+                fd = fl.gen_field(rng, start=start)
+            else:
+                k = rng.choice(["lit", "int", "float", "date"])
+                size = rng.randint(1, 8)
+                if k == "float":
+                    dd = rng.randint(0, 2)
+                    fmt, sep = rng.choice([("F", "."), ("f", ","), ("E", ".")])
+                    if fmt == "E" and size < 6 + dd:
+                        fmt = "F"
+                    fd = {"k": "float", "size": size, "start": start, "dd": dd, "fmt": fmt, "sep": sep}
+                elif k == "date":
+                    fmt = rng.choice(["%m/%d", "%H%M", "%Y", "%Y%m", "%d/%Y"])
+                    fd = {"k": "date", "size": max(size, fl.date_width(fmt) - rng.choice([0, 0, 1])), "start": start, "formats": [fmt]}
+                else:
+                    fd = {"k": k, "size": size, "start": start}
+            steps = []
+            for _ in range(rng.randint(2, 4)):
+                mode = "bytes" if rng.random() < 0.35 and (fd["k"] in ("lit", "date") or fd["size"] in (2, 4, 8)) else "str"
+                steps.append([fit_value(rng, fd, mode), gen_target(rng, fd["start"] + fd["size"]), mode])
+            v, target, mode = steps.pop()
+            yield {"t": "field", "fd": fd, "v": v, "target": target, "mode": mode, "history": steps}
         n = 1500 if tier == "quick" else 30000
         for _ in range(n):
             binary = rng.random() < 0.35
-            if binary:
+            textual = rng.random() < 0.12
+            if textual:
+                # layouts with date fields in a textual format (outside the model's format language: judged by the oracle alone);
+                # the other fields are of the kinds whose fitting values the reference decides with certainty
+                fs = []
+                pos = rng.randint(0, 3)
+                cnt = rng.randint(1, 5)
+                for i in range(cnt):
+                    if rng.random() < 0.4 or (i == cnt - 1 and not any(is_textual(fd) for fd in fs)):
+                        fd = textual_field(rng, pos)
+                    elif binary and rng.random() < 0.4:
+                        fd = {"k": "int", "size": rng.choice([2, 4, 8]), "start": pos}
+                    else:
+                        fd = fl.gen_field(rng, ("lit", "date") if binary else ("lit", "int", "date"), pos)
+                    fs.append(fd)
+                    pos = fd["start"] + fd["size"] + rng.choice([0, 0, 1, 3])
+                rng.shuffle(fs)
+            elif binary:
                 fs = []
                 pos = rng.randint(0, 2)
                 for _ in range(rng.randint(1, 5)):
@@ -94,41 +242,86 @@ class CHECK(Check):
                 i = rng.randrange(len(fs))
                 j = rng.choice([k for k in range(len(fs)) if k != i])
                 fs[i] = dict(fs[i], start=max(0, fs[j]["start"] + rng.choice([0, 0, 1, -1, fs[j]["size"] - 1])))
-            vals = []
-            for fd in fs:
-                v = fl.gen_value(rng, fd)
-                if binary and v and v[0] == "str":
-                    v = ["str", "".join(c for c in v[1] if ord(c) < 128)]
-                if binary and fd["k"] == "int" and v and v[0] == "int":
-                    w = 8 * fd["size"]
-                    v = ["int", max(-2 ** (w - 1), min(2 ** (w - 1) - 1, v[1]))]
-                vals.append(v)
-            yield {"t": "line", "fields": fs, "values": vals, "binary": binary}
+            case = {"t": "line", "fields": fs, "values": self.gen_row(rng, fs, binary, textual), "binary": binary}
+            if textual or rng.random() < 0.4:
+                # the same Line written for 1-3 earlier records (other values, renderings of other widths) before the measured one
+                case["history"] = [self.gen_row(rng, fs, binary, textual or rng.random() < 0.5) for _ in range(rng.randint(1, 3))]
+            yield case
         yield {"t": "default"}
 
+    @staticmethod
+    def gen_row(rng, fs, binary, certain):
+        """one value per field; certain: every value certainly fits (ref_fits), else the model decides"""
+        vals = []
+        for fd in fs:
+            if certain:
+                vals.append(fit_value(rng, fd, "bytes" if binary else "str"))
+                continue
+            v = fl.gen_value(rng, fd)
+            if binary and v and v[0] == "str":
+                v = ["str", "".join(c for c in v[1] if ord(c) < 128)]
+            if binary and fd["k"] == "int" and v and v[0] == "int":
+                w = 8 * fd["size"]
+                v = ["int", max(-2 ** (w - 1), min(2 ** (w - 1) - 1, v[1]))]
+            vals.append(v)
+        return vals
+
+    def comparable(self, case):
+        if case["t"] == "field":
+            return not is_textual(case["fd"])
+        if case["t"] == "line":
+            return not any(is_textual(fd) for fd in case["fields"])
+        return True
+
     # ---- implementation
+    @staticmethod
+    def case_hash(case):
+        import hashlib, json
+        return int(hashlib.sha1(json.dumps(case, sort_keys=True).encode()).hexdigest(), 16)
+
+    @staticmethod
+    def write_field(f, target, mode):
+        if mode == "str":
+            return f.write(target)
+        try:
+            return list(f.write(target.encode("latin-1")))
+        except OverflowError:
+            return None
+
     def impl(self, case):
         if case["t"] == "field":
-            import hashlib, json
-            hh = int(hashlib.sha1(json.dumps(case, sort_keys=True).encode()).hexdigest(), 16)
-            f = fl.mk_field(case["fd"], fl.py_value_typed(case["v"], (hh >> 1) if hh & 1 else 0))
-            if case["mode"] == "str":
-                return {"out": f.write(case["target"])}
-            try:
-                return {"out": list(f.write(case["target"].encode("latin-1")))}
-            except OverflowError:
-                return {"out": None}
+            hh = self.case_hash(case)
+            typed = lambda v, i: fl.py_value_typed(v, (hh >> (3 * i + 1)) if hh & 1 else 0)
+            hist = case.get("history")
+            if not hist:
+                f = fl.mk_field(case["fd"], typed(case["v"], 0))
+                return {"out": self.write_field(f, case["target"], case["mode"])}
+            # the same Field object throughout: the first value through the constructor, the later ones through the setter
+            outs = []
+            f = None
+            for i, (v, target, mode) in enumerate(hist + [[case["v"], case["target"], case["mode"]]]):
+                if f is None:
+                    f = fl.mk_field(case["fd"], typed(v, i))
+                else:
+                    f.value = typed(v, i)
+                outs.append(self.write_field(f, target, mode))
+            return {"out": outs[-1], "hist": outs[:-1]}
         if case["t"] == "line":
             from cfinterface.components.line import Line
             fields = [fl.mk_field(fd) for fd in case["fields"]]
             line = Line(fields, storage="BINARY" if case["binary"] else "TEXT")
-            try:
-                import hashlib, json
-                hh = int(hashlib.sha1(json.dumps(case, sort_keys=True).encode()).hexdigest(), 16)
-                out = line.write([fl.py_value_typed(v, (hh >> (3 * i + 1)) if hh & 1 else 0) for i, v in enumerate(case["values"])])
-            except OverflowError:
-                return {"out": None}
-            return {"out": list(out) if isinstance(out, bytes) else out}
+            hh = self.case_hash(case)
+            outs = []
+            for r, row in enumerate(case.get("history", []) + [case["values"]]):
+                try:
+                    out = line.write([fl.py_value_typed(v, (hh >> (3 * (i + r) + 1)) if hh & 1 else 0) for i, v in enumerate(row)])
+                except OverflowError:
+                    out = None
+                outs.append(list(out) if isinstance(out, bytes) else out)
+            obs = {"out": outs[-1]}
+            if "history" in case:
+                obs["hist"] = outs[:-1]
+            return obs
         from cfinterface.components.literalfield import LiteralField
         from cfinterface.components.integerfield import IntegerField
         from cfinterface.components.floatfield import FloatField
@@ -152,8 +345,11 @@ class CHECK(Check):
             return [6 if case["mode"] == "str" else 7, fl.field_sx(case["fd"]), fl.value_sx(case["v"]), tgt]
         if case["t"] == "line":
             st = [[fl.field_sx(fd), []] for fd in case["fields"]]
-            vals = [fl.value_sx(v) for v in case["values"]]
-            return [0, [st, [], [], case["binary"]], [[8, vals], [5, vals]]]
+            ops = []
+            for row in case.get("history", []) + [case["values"]]:
+                vals = [fl.value_sx(v) for v in row]
+                ops += [[8, vals], [5, vals]]       # per written record: does every value fit, and the written line
+            return [0, [st, [], [], case["binary"]], ops]
         ops = []
         st = []
         names = ["lit", "int", "float", "date"]
@@ -170,8 +366,12 @@ class CHECK(Check):
                 return {"out": fl.ostr(out), "fits": bool(fits)}
             return {"out": fl.obytes(out), "fits": bool(fits)}
         if case["t"] == "line":
-            fits, out = res
-            return {"out": (fl.obytes(out) if case["binary"] else fl.ostr(out)), "fits": all(fits)}
+            dec = fl.obytes if case["binary"] else fl.ostr
+            outs = [dec(o) for o in res[1::2]]
+            obs = {"out": outs[-1], "fits": all(all(f) for f in res[0::2])}
+            if "history" in case:
+                obs["hist"] = outs[:-1]
+            return obs
         obs = {}
         for i, n in enumerate(["lit", "int", "float", "date"]):
             fd = self.DEFAULT_FDS[n]
@@ -185,9 +385,9 @@ class CHECK(Check):
     def compare(self, case, iobs, mobs):
         if case["t"] == "default":
             return None if iobs == mobs else "defaults differ: impl=%s model=%s" % (iobs, mobs)
-        if iobs.get("out") == mobs["out"]:
-            return None
-        return "impl=%r model=%r" % (iobs.get("out"), mobs["out"])
+        if iobs.get("out") == mobs["out"] and (case["t"] != "line" or iobs.get("hist") == mobs.get("hist")):
+            return None         # (a field's earlier writes are judged by the oracle; the model is asked for the measured one)
+        return "impl=%r model=%r" % ([iobs.get("hist"), iobs.get("out")], [mobs.get("hist"), mobs["out"]])
 
     # ---- direct oracle (from the property text)
     def oracle(self, case, obs):
@@ -195,27 +395,43 @@ class CHECK(Check):
             exp = {"lit": [80, 0, 80, "ab".ljust(80)], "int": [8, 0, 8, "      12"], "float": [8, 0, 8, "  1.5000"],
                    "date": [16, 0, 16, "2021/03/04".ljust(16)]}
             return None if obs == exp else "default-constructed field geometry/rendering differs from the documented defaults"
-        if "out" not in obs or obs["out"] is None:
-            return "write raised on a fitting value: %s" % (obs,)
-        out = obs["out"]
+        # every write through the object is judged, the earlier ones (history) like the measured one
         if case["t"] == "field":
-            fd = case["fd"]
-            s, e = fd["start"], fd["start"] + fd["size"]
-            tgt = case["target"] if case["mode"] == "str" else list(case["target"].encode("latin-1"))
-            blank = " " if case["mode"] == "str" else 32
-            padded = list(tgt) + [blank] * max(0, e - len(tgt))
-            out_l = list(out)
-            if len(out_l) != max(len(tgt), e):
-                return "length of the written line is %d, expected max(len(line), span end) = %d" % (len(out_l), max(len(tgt), e))
-            if out_l[:s] != padded[:s] or out_l[e:] != padded[e:]:
-                return "positions outside the span changed"
-            if case["mode"] == "str":
-                return self.justify("".join(out_l[s:e]), fd, case["v"])
-            return None
-        # line
-        fs = case["fields"]
+            steps = case.get("history", []) + [[case["v"], case["target"], case["mode"]]]
+            outs = list(obs.get("hist", [])) + [obs.get("out")]
+            judge1 = lambda step, out: self.field_frame(case["fd"], step[0], step[1], step[2], out)
+        else:
+            steps = case.get("history", []) + [case["values"]]
+            outs = list(obs.get("hist", [])) + [obs.get("out")]
+            judge1 = lambda row, out: self.line_shape(case["fields"], row, case["binary"], out)
+        if len(outs) != len(steps):
+            return "the observation has %d writes, the case %d" % (len(outs), len(steps))
+        for k, (step, out) in enumerate(zip(steps, outs)):
+            w = ("write raised on a fitting value: %s" % (obs,)) if out is None else judge1(step, out)
+            if w:
+                return w if len(steps) == 1 else w + " (write #%d of %d through the same object)" % (k + 1, len(steps))
+        return None
+
+    def field_frame(self, fd, v, target, mode, out):
+        """one Field.write(target): only the field's own span changes, a shorter target is first padded with blanks"""
+        s, e = fd["start"], fd["start"] + fd["size"]
+        tgt = target if mode == "str" else list(target.encode("latin-1"))
+        blank = " " if mode == "str" else 32
+        padded = list(tgt) + [blank] * max(0, e - len(tgt))
+        out_l = list(out)
+        if len(out_l) != max(len(tgt), e):
+            return "length of the written line is %d, expected max(len(line), span end) = %d" % (len(out_l), max(len(tgt), e))
+        if out_l[:s] != padded[:s] or out_l[e:] != padded[e:]:
+            return "positions outside the span changed"
+        if mode == "str":
+            return self.justify("".join(out_l[s:e]), fd, v)
+        return None
+
+    def line_shape(self, fs, values, binary, out):
+        """one Line.write(values): as long as the furthest field end (+ one newline in text storage), blank gaps, every field
+        that owns its whole span rendered on its own columns"""
         end = max(fd["start"] + fd["size"] for fd in fs)
-        if case["binary"]:
+        if binary:
             if len(out) != end:
                 return "binary line length %d != furthest field end %d" % (len(out), end)
             body = out
@@ -232,11 +448,11 @@ class CHECK(Check):
         for i, fd in enumerate(fs):
             for col in range(fd["start"], fd["start"] + fd["size"]):
                 owner[col] = i      # fields are written in declaration order: the last one covering a column owns it
-        for i, (fd, v) in enumerate(zip(fs, case["values"])):
+        for i, (fd, v) in enumerate(zip(fs, values)):
             covered.update(range(fd["start"], fd["start"] + fd["size"]))
             if any(owner[col] != i for col in range(fd["start"], fd["start"] + fd["size"])):
                 continue            # partly overwritten by a later, overlapping field: its visible part is compared with the model
-            if not case["binary"]:
+            if not binary:
                 w = self.justify(body[fd["start"]: fd["start"] + fd["size"]], fd, v)
                 if w:
                     return w
@@ -272,21 +488,75 @@ class CHECK(Check):
 
     def classify(self, case):
         if case["t"] == "field":
-            return {"field_" + case["fd"]["k"]: 1, "mode_" + case["mode"]: 1, "target_len_%02d" % len(case["target"]): 1,
-                    "missing" if case["v"] is None or case["v"][0] in ("nan", "nat") else "present": 1}
+            d = {"field_" + case["fd"]["k"]: 1, "mode_" + case["mode"]: 1, "target_len_%02d" % len(case["target"]): 1,
+                 "missing" if case["v"] is None or case["v"][0] in ("nan", "nat") else "present": 1}
+            if "history" in case:
+                d["field_earlier_writes_%d" % len(case["history"])] = 1
+                ws = self.widths(case["fd"], [st[0] for st in case["history"]] + [case["v"]])
+                d["field_history_renderings_of_%s" % ("different_widths" if len(ws) > 1 else "one_width")] = 1
+            if is_textual(case["fd"]):
+                d["field_textual_date_format_oracle_only"] = 1
+            if case["v"] and case["v"][0] == "date" and case["v"][1][0] < 1000:
+                d["date_year_below_1000"] = 1
+            return d
         if case["t"] == "line":
-            return {"line_binary" if case["binary"] else "line_text": 1, "line_fields_%d" % len(case["fields"]): 1}
+            d = {"line_binary" if case["binary"] else "line_text": 1, "line_fields_%d" % len(case["fields"]): 1}
+            if "history" in case:
+                d["line_earlier_records_%d" % len(case["history"])] = 1
+            if any(is_textual(fd) for fd in case["fields"]):
+                d["line_textual_date_format_oracle_only"] = 1
+            return d
         return {"defaults": 1}
 
+    @staticmethod
+    def widths(fd, values):
+        """the set of rendered widths among the non-missing values, where the reference knows the rendering"""
+        ws = set()
+        for v in values:
+            if v is None or v[0] in ("nan", "nat"):
+                continue
+            if fd["k"] == "date":
+                ws.add(len(datetime.datetime(*v[1]).strftime(fd["formats"][0])))
+            elif fd["k"] in ("lit", "int"):
+                ws.add(len(str(v[1])))
+            else:
+                ws.add(len("%.*f" % (fd["dd"], fl.b2f(v[1]))))
+        return ws
+
     def signature(self, case, why):
-        return why.split(" %")[0][:60]
+        import re
+        return re.sub(r"\d+", "N", why.split(" (write #")[0].split(" %")[0])[:60]      # the kind of failure, not its numbers
 
     def shrink(self, case):
+        for i in range(len(case.get("history", []))):
+            c = dict(case)
+            c["history"] = case["history"][:i] + case["history"][i + 1:]
+            yield c
+        if case.get("history"):
+            # the last earlier write as the measured one (it certainly fits: ref_fits)
+            last = case["history"][-1]
+            if case["t"] == "field":
+                yield dict(case, history=case["history"][:-1], v=last[0], target=last[1], mode=last[2])
+            else:
+                yield dict(case, history=case["history"][:-1], values=last)
+        if case["t"] == "field" and case.get("history"):
+            # the same writes on empty targets, the field at column 0
+            for i, st in enumerate(case["history"]):
+                if st[1] != "":
+                    c = dict(case)
+                    c["history"] = case["history"][:i] + [[st[0], "", st[2]]] + case["history"][i + 1:]
+                    yield c
+            if case["target"] != "":
+                yield dict(case, target="")
+            if case["fd"]["start"] > 0:
+                yield dict(case, fd=dict(case["fd"], start=0))
         if case["t"] == "line" and len(case["fields"]) > 1:
             for i in range(len(case["fields"])):
                 c = dict(case)
                 c["fields"] = case["fields"][:i] + case["fields"][i + 1:]
                 c["values"] = case["values"][:i] + case["values"][i + 1:]
+                if "history" in case:
+                    c["history"] = [row[:i] + row[i + 1:] for row in case["history"]]
                 yield c
 
     def neighbours(self, case, rng):
